@@ -1,4 +1,4 @@
-import QuicModel
+import QuicModel.Drivers.All
 open Quic
 
 def main (args : List String) : IO UInt32 := do
